@@ -205,13 +205,14 @@ def gen_templates(rng, n):
     return out
 
 
-def tmpl_module(tmpls):
+def tmpl_module(tmpls, step):
     L = ["# cython: language_level=3", ""]
     for i, t in enumerate(tmpls):
         L += ["def p%d(v):" % i, "    return %s %% (v,)" % pyrepr(t),
-              "def q%d(long v):" % i, "    return %s %% (v,)" % pyrepr(t),
-              "def u%d(unsigned char v):" % i, "    return %s %% (v,)" % pyrepr(t),
-              "def t%d(a, b):" % i, "    return %s %% (a, b)" % pyrepr(t + "~" + t), ""]
+              "def q%d(long v):" % i, "    return %s %% (v,)" % pyrepr(t)]
+        if i % step == 0:
+            L += ["def u%d(unsigned char v):" % i, "    return %s %% (v,)" % pyrepr(t),
+                  "def t%d(a, b):" % i, "    return %s %% (a, b)" % pyrepr(t + "~" + t), ""]
     return "\n".join(L)
 
 
@@ -279,7 +280,7 @@ def text_of_model(m):
     if m.startswith("T "):
         body = m[2:]
         return ("str", repr("".join(chr(int(x)) for x in body.split(",")) if body != "-" else ""))
-    if m.endswith("Error"):
+    if m.endswith("Error") or m == "CRASH":
         return ("exc", m)
     return ("err", m)
 
@@ -327,23 +328,26 @@ def pyval(a):
 
 
 def run(ctx):
+    import time
+    t0 = time.time()
     quick = ctx.tier == "quick"
     rng = ctx.rng
     wd = ctx.workdir
-    nfast, ngram, nrand = (48, 22, 10) if quick else (110, 110, 40)
+    nfast, ngram, nrand = (42, 14, 8) if quick else (110, 110, 40)
     specs = fast_family(rng, nfast)
     while len(specs) < nfast + ngram:
         s = grammar_spec(rng)
         if s not in specs and "{" not in s and "}" not in s:
             specs.append(s)
     dynspecs = specs[:6] + specs[nfast:nfast + 6]
-    fspecs = float_specs(rng, 45 if quick else 140)
+    fspecs = float_specs(rng, 40 if quick else 140)
     ospecs = ["", "5", ">5", "<5", "^7", "05", "x", "d", ".2f", "s", ".2", "10.3", "*^9", "c", "b", "#o", "+", ",", "_x", "e", "%", "r", "!"]
     while len(ospecs) < (40 if quick else 120):
         s = grammar_spec(rng)
         if s not in ospecs:
             ospecs.append(s)
-    tmpls = gen_templates(rng, 110 if quick else 320)
+    tstep = 3 if quick else 1
+    tmpls = gen_templates(rng, 96 if quick else 320)
 
     # the compiler's own decision which specs take the C fast path
     pr = cybuild.run_script(PARSE_SCRIPT, wd, stdin_obj=specs, name="parse_specs.py")
@@ -355,12 +359,13 @@ def run(ctx):
     bspecs = [dict(name="c18_%s" % nm, source=int_module(ct, nm, specs, dynspecs), workdir=wd) for ct, nm, w, sg in TYPES]
     bspecs += [dict(name="c18_float", source=float_module(fspecs), workdir=wd),
                dict(name="c18_obj", source=obj_module(ospecs), workdir=wd),
-               dict(name="c18_tmpl", source=tmpl_module(tmpls), workdir=wd)]
-    built = cybuild.build_many(bspecs, jobs=8)
+               dict(name="c18_tmpl", source=tmpl_module(tmpls, tstep), workdir=wd)]
+    built = cybuild.build_many(bspecs, jobs=12)
     for (so, err), sp in zip(built, bspecs):
         if err is not None:
             ctx.corr_break("build " + sp["name"], sp["name"], str(err)[:1500], "module builds")
             return
+    ctx.note("build: %.0f s" % (time.time() - t0))
     mods = [sp["name"] for sp in bspecs]
     setup = "import " + ", ".join(mods) + "\n" + OBJ_SETUP
     model = ctx.model("intfmt")
@@ -402,10 +407,14 @@ def run(ctx):
                 vs = sorted(set(keep + rng.sample(vs, 18)))
             if wi > 4096 or re.search(r"\d{4,}", sp):
                 vs = vs[:2] + vs[-1:]
+            if t == "c" and wi > 251:
+                # (int)v < 0 reaches BuildFromAscii with a byte >= 0x80: PyUnicode_WRITE aborts; keep one such value
+                ab = [v for v in vs if v >= 0x200000 and ((v + 2 ** 31) % 2 ** 32) < 2 ** 31]
+                vs = [v for v in vs if v not in ab] + ab[:1]
             for v in vs:
                 cases.append(["c18_%s.f%d" % (nm, i), [v]])
                 meta.append((nm, w, sg, i, v))
-    res = cybuild.call_cases(wd, cases, setup=setup, alarm=10)
+    res = cybuild.call_cases(wd, cases, setup=setup, alarm=10, max_crashes=200)
     mq, mqi, sq = [], [], []
     for k, (nm, w, sg, i, v) in enumerate(meta):
         t, wi, p = parsed[i]
@@ -553,6 +562,8 @@ def run(ctx):
         for v in (0, 5, -5, 255, -2 ** 63, 2 ** 63 - 1, 1114111):
             cases.append(["c18_tmpl.q%d" % i, [v]])
             meta.append(("long", t, v, oracle(lambda: t % (v,))))
+        if i % tstep:
+            continue
         for v in (0, 65, 255):
             cases.append(["c18_tmpl.u%d" % i, [v]])
             meta.append(("uchar", t, v, oracle(lambda: t % (v,))))
@@ -571,6 +582,7 @@ def run(ctx):
             nbad[kl] = nbad.get(kl, 0) + 1
             if nbad[kl] <= 3:
                 ctx.fail(kl, inp, got, exp)
+    ctx.note("total run: %.0f s" % (time.time() - t0))
     ctx.extra["failing_case_counts"] = dict(sorted(nbad.items()))
     ctx.extra["n_specs"] = {"cint": len(specs), "cint_fast_path": sum(1 for t, wi, p in parsed if t not in (None, "!")),
                             "float": len(fspecs), "object": len(ospecs), "templates": len(tmpls)}
